@@ -2,7 +2,7 @@
 cache the resulting obligations."""
 import hashlib, json, os, sys, time, traceback
 from multiprocessing import Pool
-from . import configs, prog as progmod, e2run, contracts, mm
+from . import configs, prog as progmod, e2run, contracts, mm, eqspec
 from .interp import Unsupported
 
 HERE = os.path.dirname(os.path.abspath(__file__))
@@ -41,6 +41,8 @@ def public_roots(P):
 
 
 _CUT = {}
+# small helpers whose result only means something together with the ghost state they build: always inlined
+NEVER_CUT = {'arch::all::is_equal'}
 
 
 def cut_set_for(P):
@@ -72,7 +74,8 @@ def cut_set_for(P):
             memo[inst.key] = r
             return r
         _CUT[k] = frozenset(r for r in public_roots(P) if not P.instances[r].is_unsafe_fn
-                            and P.instances[r].j.get('def_kind') in ('Fn', 'AssocFn') and substantial(P.instances[r]))
+                            and P.instances[r].j.get('def_kind') in ('Fn', 'AssocFn') and substantial(P.instances[r])
+                            and P.instances[r].path not in NEVER_CUT)
     return _CUT[k]
 
 
@@ -103,6 +106,7 @@ def run_one(job):
                 contracts.post_invariants(I, inst, r['results'], r.get('args', []))
                 mm.check_root_post(I, inst, r['results'], r.get('args', []))
                 mm.check_domain(I, inst, vname, r['results'])
+                eqspec.check(I, inst, r['results'], r.get('args', []))
                 if post:
                     post(I, inst, r['results'])
             for o in I.obs:
